@@ -200,7 +200,7 @@ def plan(tier, seed):
     shards = []
     for u, m in combos:
         n = 16 if (tier == "thorough" and u == "sparse" and m == "sparse") else 5
-        shards += [{"universe": u, "data": m, "index": i, "count": n} for i in range(n)]
+        shards += [{"universe": u, "data": m, "index": i, "count": n, "first_index": (0, -1)[i % 2]} for i in range(n)]
     return {"shards": shards}
 
 
@@ -209,6 +209,7 @@ def run_shard(sh):
     from mc import env
     ref = Conf()
     W = worlds.World(ref, worlds.universes(ref, "thorough")[sh["universe"]], sh["universe"])
+    first = worlds.touch_first(W.names[sh.get("first_index", 0)])
     datamap = build(W, sh["data"])
     rec = Recorder(sh["index"], sh["count"], sh["seed"])
     k = 2 if (sh["tier"] == "thorough" and sh["universe"] == "sparse" and sh["data"] == "sparse") else 1
@@ -220,14 +221,15 @@ def run_shard(sh):
         rec.case(cls, cls == "found", sample=[sh["universe"], sh["data"], s])
         for x in v:
             rec.violation(x["signature"], "search", [sh["universe"], sh["data"], s], x["observed"], x["expected"])
-    rec.extra = {"universe": sh["universe"], "data": sh["data"], "sidecars": len(datamap)}
-    return rec.result()
+    rec.extra = {"universe": sh["universe"], "data": sh["data"], "sidecars": len(datamap), "first_loaded": first}
+    return worlds.tag_first(rec.result(), first)
 
 
 def replay_case(kind, case):
     from mc.ref.model import Conf
     from mc import env
     ref = Conf()
+    worlds.touch_first()
     W = worlds.World(ref, worlds.universes(ref, "thorough")[case[0]], case[0])
     datamap = build(W, case[1])
     env.reset()
